@@ -158,6 +158,18 @@ const (
 	rMin, rMax = -2, 5
 )
 
+var wideCounter int
+
+// freshWide returns a wide glyph not used before in this process (CJK ideographs, then Hangul syllables).
+func freshWide() string {
+	n := wideCounter % (20902 + 11172)
+	wideCounter++
+	if n < 20902 {
+		return string(rune(0x4E00 + n))
+	}
+	return string(rune(0xAC00 + n - 20902))
+}
+
 // cellCalls: SetCell / SetStyle at every coordinate, Fill, Clear.
 func (w *world) cellCalls(chain []winSpec) {
 	bad := func(call, clause, why string) {
@@ -318,6 +330,10 @@ func (w *world) cellCalls(chain []winSpec) {
 			for cc := cMin; cc <= cMax; cc++ {
 				w.resetScreen()
 				win, ox, oy, clip, _ = w.build(chain)
+				if wc.Width == 0 {
+					// a glyph this Vaxis has not met before: its width is not in any cache yet
+					wc.Grapheme = freshWide()
+				}
 				win.SetCell(cc, rr, wc)
 				w.s.Vx.Render()
 				r.Count("renders", 1)
@@ -345,7 +361,7 @@ func (w *world) cellCalls(chain []winSpec) {
 						}
 					}
 				}
-				if cc >= 0 && rr >= 0 && cc+2 <= win.Width && rr < win.Height && clip.has(ox+cc, oy+rr) && clip.has(ox+cc+1, oy+rr) && g[oy+rr][ox+cc].Text != "世" {
+				if cc >= 0 && rr >= 0 && cc+2 <= win.Width && rr < win.Height && clip.has(ox+cc, oy+rr) && clip.has(ox+cc+1, oy+rr) && g[oy+rr][ox+cc].Text != wc.Grapheme {
 					bad("SetCell-wide", "dropped", fmt.Sprintf("SetCell(%d,%d,wide) fits but was not drawn", cc, rr))
 					return
 				}
